@@ -203,3 +203,71 @@ def search(res, tier, boost=False):
                 if abs(v - target(k)) > tol_dbl * abs(target(k)):
                     res.violation('C05:constructor-inexact:%s:%d' % (cname, N_poly), dict(degree=k))
                     break
+
+    # the scheme constructors as a HISTORY of requests in one process (random order, every request repeated, mirrors
+    # taken in between): each returned scheme must be exact for the class its constructor advertises, whatever was
+    # requested before
+    from ..common import seed_rng
+    rng = seed_rng(res.seed, 'C05h')
+    keys1 = {f: sorted(e['key'][0] for e in fams[f]) for f in fams}
+    reqs = []
+    for lname, ctor, cls in (('LOG_QUAD_RULES', 'log_quadrature_scheme', 'log'),
+                             ('LOG_LOG_QUAD_RULES', 'log_log_quadrature_scheme', 'loglog'),
+                             ('SQRT_QUAD_RULES', 'sqrt_quadrature_scheme', 'sqrt'),
+                             ('SQRTINV_QUAD_RULES', 'sqrtinv_quadrature_scheme', 'sqrtinv')):
+        for k in getattr(QR, lname):
+            reqs.append((ctor, tuple(int(v) for v in k), cls))
+    for N_poly in range(1, 64, 2):
+        N = (N_poly + 1) // 2
+        if N in keys1.get('gauss_sqrtinv_quadrature_rule', []):
+            reqs.append(('gauss_sqrtinv_quadrature_scheme', (N_poly, ), 'w=1/sqrt'))
+        if N in keys1.get('gauss_x_quadrature_rule', []):
+            reqs.append(('gauss_x_quadrature_scheme', (N_poly, ), 'w=x'))
+        if N in keys1.get('gauss_log_quadrature_rule', []):
+            reqs.append(('gauss_log_quadrature_scheme', (N_poly, ), 'w=-log'))
+        if N_poly <= 41:
+            reqs.append(('gauss_quadrature_scheme', (N_poly, ), 'w=1'))
+    reqs = reqs + reqs
+    rng.shuffle(reqs)
+    targets = {
+        'log': lambda key: [(key[0], lambda x, k: x**k, lambda k: mpf(1) / (k + 1)),
+                            (key[1], lambda x, k: x**k * log(x), lambda k: -mpf(1) / (k + 1)**2)],
+        'loglog': lambda key: [(key[0], lambda x, k: x**k, lambda k: mpf(1) / (k + 1)),
+                               (key[1], lambda x, k: x**k * log(x), lambda k: -mpf(1) / (k + 1)**2),
+                               (key[1], lambda x, k: x**k * log(1 - x), lambda k: -harm(k + 1) / (k + 1))],
+        'sqrt': lambda key: [(key[0], lambda x, k: x**k, lambda k: mpf(1) / (k + 1)),
+                             (key[1], lambda x, k: x**k * sqrt(x), lambda k: 1 / (k + mpf(3) / 2))],
+        'sqrtinv': lambda key: [(key[0], lambda x, k: x**k, lambda k: mpf(1) / (k + 1)),
+                                (key[1], lambda x, k: x**k / sqrt(x), lambda k: 1 / (k + mpf(1) / 2))],
+        'w=1/sqrt': lambda key: [(key[0], lambda x, k: x**k, lambda k: mpf(2) / (2 * k + 1))],
+        'w=x': lambda key: [(key[0], lambda x, k: x**k, lambda k: mpf(1) / (k + 2))],
+        'w=-log': lambda key: [(key[0], lambda x, k: x**k, lambda k: -mpf(1) / (k + 1)**2)],
+        'w=1': lambda key: [(key[0], lambda x, k: x**k, lambda k: mpf(1) / (k + 1))],
+    }
+    seen = []
+    for step, (ctor, key, cls) in enumerate(reqs):
+        seen.append('%s%s' % (ctor, key))
+        try:
+            sch = getattr(Q, ctor)(*key)
+            if rng.random() < 0.3:
+                sch.mirror()          # taking the mirror must not disturb the scheme itself
+        except Exception as exc:
+            res.violation('C05:constructor-fails:%s:%s' % (ctor, '_'.join(map(str, key))),
+                          dict(constructor=ctor, key=list(key), error=repr(exc), requests_before=seen[-6:]))
+            continue
+        xs = [mpf(float(x)) for x in sch.points]
+        ws = [mpf(float(w)) for w in sch.weights]
+        bad = None
+        for kmax, fun, exact in targets[cls](key):
+            for k in range(0, kmax + 1):
+                res.count(('ctor-history', ctor, key, k))
+                v = sum(w * fun(x, k) for x, w in zip(xs, ws))
+                if abs(v - exact(k)) > tol_dbl * abs(exact(k)):
+                    bad = (k, str(abs(v - exact(k)) / abs(exact(k))))
+                    break
+            if bad:
+                break
+        if bad:
+            res.violation('C05:constructor-inexact:%s:%s' % (ctor, '_'.join(map(str, key))),
+                          dict(constructor=ctor, key=list(key), degree=bad[0], relative_defect=bad[1], request_number=step,
+                               requests_before=seen[-8:], note='requests are made in one process, in this order'))
